@@ -504,7 +504,10 @@ class ClassParser(BaseParser):
                     context: RuntimeContext = parser.make_context()
 
                 if isinstance(_d, dict):
-                    kwargs.update(_d)
+                    try:
+                        kwargs.update(keyword_data(self.obj, _d, context))
+                    except Exception as e:
+                        raise exc.ParseError(type=self.obj, value=_d, origin_exc=e) from e
 
                 if no_parse:
                     values = kwargs
@@ -565,6 +568,25 @@ class ClassParser(BaseParser):
         return data
 
 
+def keyword_data(cls, data, context: RuntimeContext) -> dict:
+    """
+    the data of a dataclass is taken as keyword arguments: a plain dict with str keys.
+    keys of other types are converted under cast_keyword_str and refused otherwise
+    (passing them on would end in the interpreter's bare "keywords must be strings" TypeError)
+    """
+    transformer = context.transformer
+    result = {}
+    for key, val in dict(data).items():
+        if not isinstance(key, str):
+            if not context.options.cast_keyword_str:
+                raise TypeError(
+                    f"invalid key: {repr(key)} for {cls}, keys must be str (or set cast_keyword_str=True)"
+                )
+            key = transformer.to_str(key)
+        result[key] = val
+    return result
+
+
 def init_dataclass(
     cls: Type[T], data, options: Options = None, context: RuntimeContext = None
 ) -> T:
@@ -589,13 +611,8 @@ def init_dataclass(
             else:
                 data = transformer.to_dict(data)
 
-        if new_context.options.cast_keyword_str:
-            _data = {}
-            for key, val in data.items():
-                if not isinstance(key, str):
-                    key = transformer.to_str(key)
-                _data[key] = val
-            data = _data
+        # the mapping is unpacked as keyword arguments below: read it here, where a failure is a ParseError
+        data = keyword_data(cls, data, new_context)
     except Exception as e:
         raise exc.ParseError(type=cls, value=data, origin_exc=e) from e
 
